@@ -426,7 +426,7 @@ Proof.
     rewrite Eq. cbv beta iota zeta. rewrite Ef. rewrite sp_path_auth by exact Hns. cbv beta iota.
     unfold sp_build, A. rewrite split_authority_parts.
     + unfold lit. destruct i6 as [b|], fu as [f|]; cbn [is_some orb] in *; try contradiction.
-      * destruct Hfl as (-> & _ & Hv). unfold v_start in Hv. rewrite Hv. reflexivity.
+      * destruct Hfl as (-> & _ & Hv & _). unfold v_start in Hv. rewrite Hv. reflexivity.
       * destruct Hfl as (-> & -> & Hv). unfold v_start in Hv. rewrite Hv. reflexivity.
       * reflexivity.
     + revert Hui'. apply opt_ok_impl. intros t. apply avoid_sub. intros c. cbn [mem]. intros H. rewrite !orb_true_iff in *. tauto.
